@@ -28,6 +28,10 @@ theorem declareClause_uinv (c : Clause) (s : Store) (tx : Tx) (e : Option Err) (
   | setState => exact h.same rfl
   | retract => exact h.same rfl
   | purge => exact h.same rfl
+  | supersede => exact h.same rfl
+  | correct => exact h.same rfl
+  | transition => exact h.same rfl
+  | setRetention => exact h.same rfl
 
 theorem PlanInv.declare {p : PS} (h : PlanInv [] p) (c : Clause) : PlanInv [] (p.andThen (declareClause c)) := by
   unfold PS.andThen
